@@ -790,7 +790,7 @@ class IndexedStringMemField(MemoryField):
         :return: MemoryFieldArray('8')
         """
         if self._value_wrapper is None:
-            self._value_wrapper = MemoryFieldArray('int8')
+            self._value_wrapper = MemoryFieldArray('uint8')
         return self._value_wrapper
 
     def __len__(self):
